@@ -36,4 +36,9 @@ class EqValue(GenericValue):
         return self._file._value_to_code(self._new_value)
 
     def _get_changes(self) -> Iterator[Change]:
+        if self._new_value is undefined:
+            # the snapshot was only compared during the alignment of a list,
+            # or the comparison raised an exception
+            return iter([])
+
         return iter(self._changes)
